@@ -207,8 +207,13 @@ def _names(rng, n, taken):
     return out
 
 
+FIRST_CHANNEL_ARRAY_P = 0.0      # share of frame types whose first channel is an array (an unindexed frame type, RP66V1 5.7.1)
+
+
 def random_dims(rng, first):
     if first:
+        if FIRST_CHANNEL_ARRAY_P and rng.random() < FIRST_CHANNEL_ARRAY_P:
+            return (rng.choice([2, 3, 40, 48, 70, 150]),)
         return (1,)
     k = rng.random()
     if k < 0.4:
